@@ -236,7 +236,26 @@ fn clean(path: &str) -> std::io::Result<()> {
     std::fs::remove_file(path)
 }
 
+/// Is /dev/full what it should be here (a character device whose writes fail)?  Where it is not, the `full` cases are skipped
+/// (recorded), never judged: writing to a regular file of that name would succeed and prove nothing.
+fn full_device_ok() -> bool {
+    use std::io::Write;
+    use std::os::unix::fs::FileTypeExt;
+    let is_dev = std::fs::metadata("/dev/full").map(|m| m.file_type().is_char_device()).unwrap_or(false);
+    if !is_dev {
+        return false;
+    }
+    match std::fs::OpenOptions::new().write(true).open("/dev/full") {
+        Ok(mut f) => f.write_all(b"x").and_then(|_| f.flush()).is_err(),
+        Err(_) => false,
+    }
+}
+
 fn run_case(c: &Value, dir: &str, acc: &mut Acc) {
+    if c["path"] == "full" && !full_device_ok() {
+        acc.skipped.push("path kind `full`: /dev/full is not a write-refusing character device here".to_string());
+        return;
+    }
     let shape: Vec<usize> = c["shape"].as_array().unwrap().iter().map(|x| x.as_u64().unwrap() as usize).collect();
     let ep = c["ep"].as_str().unwrap();
     let base = match c["path"].as_str().unwrap() {
